@@ -790,7 +790,9 @@ class FileAudit:
             self.store(stmt.target, info, func, live, stmt)
             if not self.display_loop(stmt.target, stmt.iter, info, func,
                                      live):
-                self.loop_over(stmt.iter, info, func, live, 'SinkOrdered')
+                sink = 'SinkInsensitive' if self.commutative_body(stmt) \
+                    else 'SinkOrdered'
+                self.loop_over(stmt.iter, info, func, live, sink)
                 self.visit_expr(stmt.iter, info, func, live, skip_loop=True)
             self.visit_body(stmt.body, info, func, main_block)
             self.visit_body(stmt.orelse, info, func, main_block)
@@ -974,6 +976,52 @@ class FileAudit:
                 stmt, ast.Delete) else ' ='), f'CStore {rclass}', live)
             return
         self.emit(func, text_of(tgt), 'CUnknown', live)
+
+    # ---- loops whose body commutes ----
+    @staticmethod
+    def commutative_body(stmt):
+        '''``for x in S:`` whose body is nothing but ``del d[x]`` /
+        ``d.pop(x[, default])`` / ``s.discard(x)`` / ``s.remove(x)`` /
+        ``s.add(x)`` on containers named by plain local names other than the
+        iterated expression: for the distinct elements of a set these
+        operations commute, so the final state does not depend on the order
+        (C18_remove_keys_order_irrelevant is the Coq statement for `del`).'''
+        if not isinstance(stmt.target, ast.Name) or stmt.orelse \
+                or not stmt.body:
+            return False
+        var = stmt.target.id
+        iter_names = {n.id for n in ast.walk(stmt.iter)
+                      if isinstance(n, ast.Name)}
+
+        def is_var(node):
+            return isinstance(node, ast.Name) and node.id == var
+
+        for sub in stmt.body:
+            if isinstance(sub, ast.Delete):
+                for tgt in sub.targets:
+                    if not (isinstance(tgt, ast.Subscript)
+                            and isinstance(tgt.value, ast.Name)
+                            and tgt.value.id not in iter_names
+                            and tgt.value.id != var and is_var(tgt.slice)):
+                        return False
+                continue
+            if isinstance(sub, ast.Expr) and isinstance(sub.value, ast.Call):
+                call = sub.value
+                if isinstance(call.func, ast.Attribute) \
+                        and call.func.attr in ('discard', 'remove', 'add',
+                                               'pop') \
+                        and isinstance(call.func.value, ast.Name) \
+                        and call.func.value.id not in iter_names \
+                        and call.func.value.id != var \
+                        and call.args and is_var(call.args[0]) \
+                        and not call.keywords \
+                        and len(call.args) <= (2 if call.func.attr == 'pop'
+                                               else 1) \
+                        and all(isinstance(a, ast.Constant)
+                                for a in call.args[1:]):
+                    continue
+            return False
+        return True
 
     # ---- a literal tuple/list of sets used ONLY as the iterable of a loop ----
     def display_loop(self, target, iterable, info, func, live):
